@@ -60,8 +60,18 @@ def split(rows):
     return runs
 
 
+def _req(b, n, acquire):
+    return ([{"a": "Start", "b": b, "n": n}] + ([{"a": "AcqDone", "b": b}] if acquire else []) +
+            [{"a": "Append", "b": b}, {"a": "UpSeg", "b": b, "ok": True}, {"a": "UpIdx", "b": b, "ok": True}, {"a": "UpDone", "b": b}, {"a": "Publish", "b": b}])
+
+
+# a plain behaviour of the model without any lease event (two produces of the owner, a refused produce of the other broker):
+# certainly free of stale effects; the binding self-test corrupts it
+BASE = {"label": "base:plain", "steps": _req("b1", 1, True) + _req("b1", 2, False) + [{"a": "Start", "b": "b2", "n": 1}, {"a": "AcqDone", "b": "b2"}]}
+
+
 def gen_schedules(ctx, d):
-    scheds = []
+    scheds = [BASE]
 
     def one(item):
         kind, name, pred = item
@@ -182,6 +192,8 @@ def self_test(ctx, runs, obs_viol_runs):
     clean = [r for i, r in enumerate(runs) if i not in obs_viol_runs and any(x["ev"] == "Publish" and x.get("code") == 0 for x in r)
              and not any(x["ev"] in ("Expire", "ReleaseAll", "FetchOpen") for x in r)]
     if not clean:
+        if obs_viol_runs:  # a tree on which even the plain run violates a predicate: the verdict stands, the self-test has nothing to corrupt
+            return {"skipped": "no violation-free run to corrupt"}
         raise Broken("binding self-test: no violation-free run with an acknowledged produce")
     run = clean[0]
     bad = copy.deepcopy(run)
@@ -191,10 +203,12 @@ def self_test(ctx, runs, obs_viol_runs):
     bad = copy.deepcopy(run)
     tgt = [x for x in bad if x["ev"] == "Publish" and x.get("code") == 0][-1]
     i = bad.index(tgt)
+    before = bad[i - 1]["store"]
     for x in bad[i:]:
-        x["store"] = max(0, x["store"] - 1) if bad[i - 1]["store"] > 0 else x["store"]
+        if before > 0:
+            x["store"] = before - 1  # pretend this publish lowered the store's end offset
     flagged = True
-    if bad[i - 1]["store"] > 0:
+    if before > 0:
         flagged = any(v[1] == "G04_NoRegress" for v in observe(ctx, bad, "selfO2"))
         if not flagged:
             raise Broken("binding self-test: observation layer did not flag a lowered end offset")
